@@ -221,6 +221,10 @@ def cold_query(K, call, hashseed="31337"):
     return pickle.loads(p.stdout)
 
 
+def _framed(payload):
+    return struct.pack("<Q", len(payload)) + payload
+
+
 def cold_history(ops, passive, hashseed, warn_mode="ignore"):
     """A whole history in a cold ``python`` process under another hash seed
     (no zygote, no fork): 'identical across processes and hash seeds'."""
@@ -230,7 +234,7 @@ def cold_history(ops, passive, hashseed, warn_mode="ignore"):
     e["VERIF_REPO"] = env.REPO
     p = subprocess.run(
         [sys.executable, "-m", "sim.oracle_server", "--history"], env=e, cwd=env.VERIF,
-        input=pickle.dumps((ops, passive, warn_mode), protocol=4), stdout=subprocess.PIPE, timeout=120)
+        input=_framed(pickle.dumps((ops, passive, warn_mode), protocol=4)), stdout=subprocess.PIPE, timeout=120)
     if p.returncode != 0:
         raise HarnessError("cold interpreter failed on a history (%d)" % p.returncode)
     return pickle.loads(p.stdout)
